@@ -589,6 +589,8 @@ class Evaluator(object):
                     if rl is not None and 1 <= rl < n:
                         n = rl
                 return [tm.tup([z.a[i] if z.op == "tuple" else tm.proj(z, i) for z in it.a[1]]) for i in range(n)]
+        if it.op == "call" and tm.callee_name(it.a[0]) == "builtins.range" and len(it.a[1]) == 1 and not it.a[2] and it.a[1][0].op == "const" and isinstance(it.a[1][0].a[0], float) and it.a[1][0].a[0].is_integer() and 1 <= it.a[1][0].a[0] <= 16:
+            return [tm.const(i) for i in range(int(it.a[1][0].a[0]))]  # range(<literal n>)
         if it.op == "call" and tm.callee_name(it.a[0]) == "builtins.enumerate" and len(it.a[1]) == 1 and not it.a[2]:
             inner = self._unroll_elements(it.a[1][0])
             if inner is not None:
@@ -1578,8 +1580,10 @@ class Evaluator(object):
         if g.vararg or g.kwarg or g.nested or any(a.op == "star" for a in args) or any(k == "**" for k, _ in kw):
             return None
         for n in ast.walk(g.node):
-            if isinstance(n, (ast.Yield, ast.YieldFrom, ast.Try, ast.Global, ast.Nonlocal, ast.Lambda)):
+            if isinstance(n, (ast.Yield, ast.YieldFrom, ast.Global, ast.Nonlocal, ast.Lambda)):
                 return None
+            if isinstance(n, ast.Try) and (n.finalbody or any(isinstance(x, ast.Return) for x in ast.walk(n))):
+                return None  # a return that leaves through a handler / finally clause is not an in-place exit
         names = list(g.params) + list(getattr(g, "kwonly", []))
         env = {}
         for i, a in enumerate(args):
@@ -1669,6 +1673,10 @@ class Evaluator(object):
             for pn, cname, init in bound:
                 if init is None or cname not in caller_env or pn in rebound:
                     continue
+                for ms in self.summary.sites[n_sites:]:
+                    # the container written through the parameter is the caller's variable
+                    if ms.kind == "mutate" and ms.d.get("root") == pn:
+                        ms.d["root"] = cname
                 finals = [e.get(pn, init) for e in ret_envs]
                 if all(f_ is init for f_ in finals):
                     continue
